@@ -12,23 +12,27 @@
 
 static long g_cur_run = -1;
 static int g_hang_seconds = 20;
+long g_sub_index = -1;	// position inside an enumerating operation (reported when the process dies)
 
 static void on_signal(int sig)
 {
     char buf[128];
-    const char *what = sig == SIGABRT ? "abort" : sig == SIGVTALRM ? "hang" : "signal";
-    int n = snprintf(buf, sizeof buf, "\n{\"r\":%ld,\"died\":\"%s\",\"op\":%ld}\n", g_cur_run, what, g_sim.op_index);
+    const char *what = sig == SIGABRT ? "abort" : sig == SIGPROF ? "hang" : "signal";
+    int n = snprintf(buf, sizeof buf, "\n{\"r\":%ld,\"died\":\"%s\",\"op\":%ld,\"sub\":%ld}\n", g_cur_run, what, g_sim.op_index, g_sub_index);
     if (write(1, buf, (size_t)n) < 0) {}
-    _exit(sig == SIGVTALRM ? 98 : 97);
+    _exit(sig == SIGPROF ? 98 : 97);
 }
 
+void sim_arm_timer(int seconds);
 static void arm_timer(int seconds)
 {
     struct itimerval it;
     memset(&it, 0, sizeof it);
     it.it_value.tv_sec = seconds;
-    setitimer(ITIMER_VIRTUAL, &it, nullptr);
+    setitimer(ITIMER_PROF, &it, nullptr);
 }
+
+void sim_arm_timer(int seconds) { arm_timer(seconds); }
 
 static Json execute(const Plan &plan, bool verbose)
 {
@@ -41,6 +45,7 @@ static Json execute(const Plan &plan, bool verbose)
     c.plan = &plan;
     c.verbose = verbose;
     c.strict_enomem = plan.cfg.geti("strict_enomem", 0) != 0;
+    c.c11 = plan.cfg.geti("c11", 0) != 0;
     arm_timer(g_hang_seconds);
     eng->run(c, plan);
     arm_timer(0);
@@ -107,7 +112,7 @@ int main(int argc, char **argv)
     setvbuf(stdout, nullptr, _IOLBF, 0);
     seams_init();
     signal(SIGABRT, on_signal);
-    signal(SIGVTALRM, on_signal);
+    signal(SIGPROF, on_signal);
     if (const char *h = getenv("VSIM_HANG_SECONDS")) g_hang_seconds = atoi(h);
     if (argc < 2) { fprintf(stderr, "usage: vsim run|gen|replay ...\n"); return 2; }
     std::string cmd = argv[1];
